@@ -1,4 +1,5 @@
 import TdModel.Model.C09Wire
+import TdModel.Model.C09BytesWire
 import TdModel.Model.C10Prog
 import TdModel.Prim.SHA1
 open TdModel TdModel.C09
@@ -21,6 +22,6 @@ def client (ws : List String) : Option String :=
 def handle (line : String) : String :=
   match words line with
   | "client" :: ws => (client ws).getD "bad-op"
-  | _ => "bad-op"
+  | ws => (bytesOp ws).getD "bad-op"
 
 def main : IO Unit := runDriver handle
